@@ -24,7 +24,7 @@ def parsePut? (fs : List String) : Option (Key × Val × Nat) :=
   match fs with
   | [k, v, p] => do
     let k ← hexToList? k
-    let v ← hexToList? v
+    let v ← if v == "~" then some [] else hexToList? v
     let p ← p.toNat?
     pure (k, v, p)
   | _ => none
@@ -62,6 +62,11 @@ def treapOp (st : TState) (op : String) : Option (TState × String) :=
   | ["s", ver] => do
     let t ← ver? ver
     pure (st, toString (Treap.size t))
+  | ["E", ver, n] => do
+    let t ← ver? ver
+    let n ← n.toNat?
+    pure (st, "[" ++ ",".intercalate ((t.toList.take n).map kvStr) ++ "]")
+  | ["z"] => pure ({ st with vers := st.vers.push .nil }, "ok")
   | ["e", ver] => do
     let t ← ver? ver
     pure (st, "[" ++ ",".intercalate (t.toList.map kvStr) ++ "]")
@@ -110,7 +115,7 @@ def runTreap (kind : String) (ops : List String) : String :=
   | some outs => "|".intercalate outs
   | none => "bad-op"
 
-def handle : List String → String
+def handle1 : List String → String
   | "treap" :: kind :: ops => runTreap kind ops
   | "db" :: rest => DbModel.runDb rest
   -- schedule exploration (readers against one writer, optionally under the race detector):
@@ -118,5 +123,16 @@ def handle : List String → String
   | ["race", _, _, _, _] => "ok"
   | ["racebuild", _] => "ok"
   | _ => "bad-op"
+
+/-- split at the separator token -/
+def splitPar (toks : List String) : List (List String) :=
+  let (cur, acc) := toks.foldl (fun (cur, acc) t =>
+    if t == "//" then ([], acc ++ [cur]) else (cur ++ [t], acc)) (([] : List String), ([] : List (List String)))
+  acc ++ [cur]
+
+def handle : List String → String
+  -- independent instances run side by side answer as each does alone
+  | "par" :: rest => " // ".intercalate ((splitPar rest).map handle1)
+  | toks => handle1 toks
 
 end BV.C05.Driver
